@@ -250,6 +250,27 @@ fn int_presentation(rng: &mut Rng, z: i128) -> Val {
     let fitting: Vec<IK> = IKS.iter().copied().filter(|k| k.fits(z)).collect();
     Val::Int(*rng.pick(&fitting), z)
 }
+/// integers (and chars) for a Float32 / Float64 column (`v as f32` / `v as f64`): small ones, boundary values of every width, and the
+/// neighbourhood of ties of the target significand (sig bits) - on the tie, one above, one below, a little further - at every exponent
+/// up to 2^63, where a detour through the other float width would round twice
+fn gen_int_for_float(rng: &mut Rng, sig: u32) -> Val {
+    let z: i128 = match rng.below(8) {
+        0 => rng.below(1000) as i128 - 500,
+        1 => { let k = *rng.pick(&IKS); gen_int_in(rng, k) }
+        2 => return Val::Char(*rng.pick(&['a', '\u{7f}', 'é', '日', '𝄞', '\u{10ffff}'])),
+        _ => {
+            let e = sig + rng.below((64 - sig) as usize) as u32;
+            let sh = e - (sig - 1);
+            let q = (1u128 << (sig - 1)) | (rng.next_u64() as u128 & ((1u128 << (sig - 1)) - 1));
+            let half = 1i128 << (sh - 1);
+            let small = 1 + (rng.next_u64() as i128 & 0x3ff) % half.max(1);
+            let d = match rng.below(6) { 0 => 0, 1 | 2 => 1, 3 => -1, 4 => small, _ => -small };
+            let z = ((q << sh) as i128) + half + d;
+            if z < (1i128 << 63) && rng.chance(1, 2) { -z } else { z }
+        }
+    };
+    int_presentation(rng, z)
+}
 fn gen_int_in(rng: &mut Rng, k: IK) -> i128 {
     let (lo, hi) = k.range();
     match rng.below(6) { 0 => lo, 1 => hi, 2 => 0, 3 => (lo + 1).min(hi), 4 => hi - 1, _ => { let span = (hi - lo) as u128 + 1; lo + ((rng.next_u64() as u128 * rng.next_u64() as u128) % span) as i128 } }
@@ -278,7 +299,9 @@ pub fn gen_val(rng: &mut Rng, f: &Field, inj: &mut Inject) -> Val {
             let k = intkind_of(&f.data_type).unwrap();
             match rng.below(10) { 0 => Val::Bool(rng.chance(1, 2)), 1 => { let c = *rng.pick(&['a', '\u{7f}', 'é', '日', '𝄞']); if k.fits(c as i128) { Val::Char(c) } else { Val::Char('a') } } _ => { let z = gen_int_in(rng, k); int_presentation(rng, z) } }
         }
+        T::Float32 if rng.chance(1, 3) => gen_int_for_float(rng, 24),
         T::Float32 => Val::F32(match rng.below(4) { 0 => f32::NAN.to_bits(), 1 => 0, 2 => (-1.5f32).to_bits(), _ => rng.next_u64() as u32 }),
+        T::Float64 if rng.chance(1, 3) => gen_int_for_float(rng, 53),
         T::Float64 => Val::F64(match rng.below(4) { 0 => f64::NAN.to_bits(), 1 => 0, 2 => (2.25f64).to_bits(), _ => rng.next_u64() }),
         T::Date32 | T::Time32(_) => { let z = gen_int_in(rng, IK::I32); Val::Int(if rng.chance(1, 2) { IK::I32 } else { IK::I64 }, z) }
         T::Date64 | T::Time64(_) => { if rng.chance(1, 2) { Val::Int(IK::I32, gen_int_in(rng, IK::I32)) } else { Val::Int(IK::I64, gen_int_in(rng, IK::I64)) } }
